@@ -97,6 +97,16 @@ def run(ctx):
     for i in range(N):
         stream = "ABAC"[i % 4]
         cases.append(gen_case(ctx.rng, stream, big=(i % 3 == 0)))
+    if not ctx.quick() and ctx.scale == 1:
+        # exhaustive small scope: EVERY loss table over {0,1,2} with two parameter values on n = 4 samples (3^8 tables), m in {1,2}, pen in {0,1,2}
+        import itertools
+        for flat in itertools.product(range(3), repeat=8):
+            loss = [list(flat[2 * i:2 * i + 2]) for i in range(4)]
+            tab = ts.cost_from_loss(loss, 4)
+            for m_, pen_ in itertools.product((1, 2), (0, 1, 2)):
+                cases.append({"stream": "exhaustive-n4", "n": 4, "m": m_, "pen": pen_, "tabs": [tab]})
+        ctx.notes["exhaustive_small_scope"] = "all 6561 loss tables over {0,1,2}^(4x2) x m in {1,2} x pen in {0,1,2}"
+        ctx.exhaustive = True
     terms, metas = [], []
     for c in cases:
         try:
